@@ -320,8 +320,25 @@ func rebaseline(s0, cur []string, p string, skip bool) ([]string, bool) {
 		return nil
 	}
 	old, now := find(s0, p), find(cur, p)
-	if (old != nil && old[1] == "dir") || (now != nil && now[1] == "dir") {
-		return s0, true
+	if p == "/" {
+		return s0, true // the root is a directory
+	}
+	if now != nil && now[1] == "dir" {
+		return s0, true // ForceBackup of a directory is outside the property
+	}
+	if old != nil && old[1] == "dir" {
+		// p was a directory when the transaction began and is a non-directory (or absent) now: the
+		// whole former subtree went with it (every entry below was removed through the BackupFS, hence
+		// tracked, and ForceBackup drops the stale copy of the tree and its tracking entries); what
+		// Rollback must leave is p as it is now and nothing below it
+		var pruned []string
+		for i := 0; i+6 < len(s0); i += 7 {
+			if s0[i] == p || strings.HasPrefix(s0[i], p+"/") {
+				continue
+			}
+			pruned = append(pruned, s0[i:i+7]...)
+		}
+		s0 = pruned
 	}
 	if par := path.Dir(p); par != "/" {
 		if pe := find(s0, par); pe == nil || pe[1] != "dir" {
@@ -440,6 +457,11 @@ func (e *histEnv) labelsAfter(op Op) []string {
 		for _, l := range treeLabels(cur) {
 			if l == "link-topology" {
 				ls = append(ls, "new-link-topology")
+			}
+			if l == "unclean-link-target" {
+				// a link with an uncleaned target text exists now (created in this transaction):
+				// once it is backed up or re-baselined its text comes back cleaned
+				ls = append(ls, l)
 			}
 		}
 		// a link now stands at a path below which tracked paths lie
